@@ -84,8 +84,8 @@ class Ctx:
     def quick(self):
         return self.tier == "quick"
 
-    def model(self, lines):
-        return run_model(lines)
+    def model(self, lines, domain=None):
+        return run_model(lines, domain=domain)
 
 
 def sexp(x):
@@ -156,12 +156,31 @@ class StrTok(str):
     """A quoted string on the wire (distinguished from bare atoms)."""
 
 
-def run_model(lines, timeout=1800):
+DEFAULT_DOMAIN = [None]
+
+
+def model_binary(domain=None):
+    """The driver binary: $SPMODEL if set (development), else the per-domain
+    binary extract/spmodel_<Domain> (built by extract/build.sh <Domain>)."""
+    if os.environ.get("SPMODEL"):
+        # development: one binary given explicitly; an explicitly requested other
+        # domain still uses its own binary if that exists
+        if domain and domain != DEFAULT_DOMAIN[0]:
+            alt = os.path.join(VERIF, "extract", "spmodel_" + domain)
+            if os.path.exists(alt):
+                return alt
+        return os.environ["SPMODEL"]
+    d = domain or DEFAULT_DOMAIN[0]
+    return os.path.join(VERIF, "extract", "spmodel_" + d) if d else SPMODEL
+
+
+def run_model(lines, timeout=1800, domain=None):
     """Run the extracted Gallina model on the given command lines."""
-    if not os.path.exists(SPMODEL):
-        raise RuntimeError("extract/spmodel missing: run ./check --setup")
+    binary = model_binary(domain)
+    if not os.path.exists(binary):
+        raise RuntimeError("%s missing: run ./check --setup" % binary)
     data = "\n".join(lines) + "\n"
-    p = subprocess.run(["bash", "-c", "ulimit -s unlimited 2>/dev/null; exec " + SPMODEL],
+    p = subprocess.run(["bash", "-c", "ulimit -s unlimited 2>/dev/null; exec " + binary],
                        input=data, capture_output=True, text=True, timeout=timeout)
     out = p.stdout.split("\n")
     if out and out[-1] == "":
@@ -242,10 +261,12 @@ class build_lock:
         self.f.close()
 
 
-def ensure_build():
-    """Full .vo build (never -vos); a no-op when everything is up to date."""
+def ensure_build(targets=None):
+    """Full .vo build (never -vos) of the given targets (default: everything);
+    a no-op when everything is up to date."""
     gen_coqproject()
-    r = sh("coq_makefile -f _CoqProject -o Makefile >/dev/null 2>&1; timeout 3000 make -j16 2>&1 | tail -40", cwd=COQ)
+    tg = " ".join(targets) if targets else ""
+    r = sh("coq_makefile -f _CoqProject -o Makefile >/dev/null 2>&1; timeout 3000 make -j16 %s 2>&1 | tail -40" % tg, cwd=COQ)
     ok = "Error" not in r.stdout and "*** " not in r.stdout
     return ok, r.stdout
 
